@@ -208,6 +208,7 @@ func Check(r *ev.Run, replay string) {
 	}
 	Pool(func(y func(progen.Program)) { progen.F3(y) }, run)
 	Pool(func(y func(progen.Program)) { progen.F4(f4ops, y) }, run)
+	Pool(func(y func(progen.Program)) { progen.F4c(f4ops+1, y) }, run)
 	Pool(func(y func(progen.Program)) { progen.F5(y) }, run)
 	Pool(func(y func(progen.Program)) { progen.F6(y) }, run)
 	Pool(func(y func(progen.Program)) { progen.F8(false, y) }, run)
